@@ -1,14 +1,16 @@
-\* Every command (working directory <= 2 components, <= 2 output paths of
+\* Every command (working directory <= 1 component, <= 2 output paths of
 \* <= 2 components over {a, b, ., ..}) against the hand-picked trees.
+\* (Working directories of 2 components: MC_OutputHierarchy_full.cfg.)
 SPECIFICATION Spec
 CONSTANTS
   Names = {"a", "b"}
-  MaxWD = 2
+  MaxWD = 1
   MaxPaths = 2
   MaxLen = 2
   K1Kinds = {"none"}
   K2Kinds = {"none"}
   PickedOnly = TRUE
+  PreAll = TRUE
 INVARIANTS
   TypeOK
   C10_EscapesRejected
